@@ -105,7 +105,7 @@ func c19R2(c *Ctx, rule string) {
 		return false
 	}, func(i ssa.Instruction) bool {
 		cc := callCommon(i)
-		return cc != nil && cc.StaticCallee() != nil && cc.StaticCallee().Name() == "recvDataFromRemote"
+		return cc != nil && isFn(cc.StaticCallee(), "internal/multiplex", "Session.recvDataFromRemote")
 	})
 	okN := w != nil && isCountOf(w.Call.Args[0], rd)
 	c.Check(miss == nil && okN, rule, "rxWait(n) between read and processing", c.at(rd), "every path from the read to recvDataFromRemote passes rxWait with the read's count", fmt.Sprintf("data can be processed without waiting (%v) or waits for a different count (%v)", miss != nil, !okN))
